@@ -5,11 +5,15 @@ package e2e
 // real `plz build`, and the printers that turn a history into a Coq `Engine.case`.
 
 import (
+	"bytes"
 	"crypto/sha256"
+	"encoding/gob"
 	"encoding/hex"
 	"encoding/json"
 	"fmt"
 	"os"
+	"path/filepath"
+	"regexp"
 	"sort"
 	"strings"
 	"sync"
@@ -29,6 +33,8 @@ type EngOpts struct {
 	PNoop               int    // percent of steps that rebuild the unchanged tree
 	DirHeavy            bool   // prefer directory outputs and renames inside them
 	Rebuild             bool   // every successful build is followed at once by a second build of the unchanged tree
+	OutDirs             bool   // generate genrules with output_dirs (op outdir) and edits of their srcs / declared out
+	RuleHashes          bool   // after every successful build run `plz hash --detailed` and record the rule hashes
 	Threads             int
 	cleanMemo           map[string]EngStep // clean reference results by (tree, request): a tree seen again is not rebuilt
 }
@@ -52,9 +58,15 @@ type EngStep struct {
 	Stderr    string                      `json:"stderr,omitempty"`
 	Stdout    string                      `json:"-"`
 	LogPath   string                      `json:"-"`
+	// Meta: label -> OutputDirOuts of .target_build_metadata_<name> (nil entry: no such file), for every
+	// requested target that is not a filegroup
+	Meta map[string]*[]string `json:"meta,omitempty"`
+	// RuleHash: label -> [pre-build, post-build] rule hash printed by `plz hash --detailed` (successful steps)
+	RuleHash map[string][2]string `json:"rule_hash,omitempty"`
+	TimedOut bool                 `json:"timed_out,omitempty"`
 }
 
-func engModelled(t *Target) bool {
+func engModelled(t *Target, od bool) bool {
 	switch t.Kind {
 	case "filegroup", "text_file":
 		return true
@@ -62,17 +74,104 @@ func engModelled(t *Target) bool {
 		switch t.Cmd.Op {
 		case "concat", "const", "copydir", "listnames", "fail":
 			return len(t.OutDirs) == 0
+		case "outdir": // the model's OutDir: output_dirs = ["_o"], file sources only, nobody depends on it
+			if !od || len(t.OutDirs) != 1 || t.OutDirs[0] != "_o" || len(t.Outs) == 0 {
+				return false
+			}
+			for _, x := range t.Srcs {
+				if strings.HasPrefix(x, "//") || strings.HasPrefix(x, ":") {
+					return false
+				}
+			}
+			return true
 		}
 	}
 	return false
+}
+
+// engClaimsOK: no two targets of a package may write the same path of plz-out/gen (the model runs the targets
+// in one order, plz runs them in parallel): what an output_dirs target discovers (the base names of its
+// sources) must not be the output of a filegroup, a declared out, or a discovery of another such target.
+// Filegroups sharing a file stay allowed (both link the same source). Nobody depends on an output_dirs target.
+func engClaimsOK(s *Spec) bool {
+	for pn, p := range s.Pkgs {
+		owner := map[string]string{}
+		claim := func(path, who string, od bool) bool {
+			if prev, ok := owner[path]; ok && prev != who && (od || strings.HasPrefix(prev, "od:")) {
+				return false
+			}
+			if od {
+				owner[path] = "od:" + who
+			} else if _, ok := owner[path]; !ok {
+				owner[path] = who
+			}
+			return true
+		}
+		hasOD := false
+		for _, t := range p.Targets {
+			if t.Cmd.Op == "outdir" {
+				hasOD = true
+			}
+		}
+		if !hasOD {
+			continue
+		}
+		for _, t := range p.Targets {
+			switch {
+			case t.Cmd.Op == "outdir":
+				for _, x := range t.Srcs {
+					if !claim(filepath.Base(x), t.Name, true) {
+						return false
+					}
+				}
+				for _, o := range t.Outs {
+					if !claim(o, t.Name, true) {
+						return false
+					}
+				}
+			case t.Kind == "filegroup":
+				for _, x := range t.Srcs {
+					if !strings.HasPrefix(x, "//") && !claim(x, t.Name, false) {
+						return false
+					}
+				}
+			default:
+				outs := t.Outs
+				if t.Kind == "text_file" && len(outs) == 0 {
+					outs = []string{t.Name}
+				}
+				for _, o := range outs {
+					if !claim(o, t.Name, false) {
+						return false
+					}
+				}
+			}
+		}
+		_ = pn
+	}
+	for _, l := range s.Labels() {
+		for _, d := range DepsOf(s.Target(l)) {
+			if dt := s.Target(d); dt != nil && dt.Cmd.Op == "outdir" {
+				return false
+			}
+		}
+	}
+	return true
 }
 
 func engGenTarget(r *lib.Rng, s *Spec, order []string, pn, name string, o EngOpts) *Target {
 	g := GenOpts{MaxPkgs: o.MaxPkgs, MaxTargets: o.MaxTargets, DirOutputs: true}
 	for {
 		t := genTarget(r, s, order, pn, name, g)
-		if !engModelled(t) {
+		if !engModelled(t, o.OutDirs) {
 			continue
+		}
+		if t.Cmd.Op == "outdir" { // would its discoveries collide with what is already in the package?
+			c := s.Clone()
+			c.Pkgs[pn].Targets = append(c.Pkgs[pn].Targets, t)
+			if !engClaimsOK(c) {
+				continue
+			}
 		}
 		if o.DirHeavy && t.Cmd.Op != "copydir" && t.Cmd.Op != "listnames" && r.Chance(1, 2) {
 			continue
@@ -105,15 +204,15 @@ func EngGenSpec(r *lib.Rng, o EngOpts) (*Spec, []string) {
 	return s, order
 }
 
-func engAllModelled(s *Spec) bool {
+func engAllModelled(s *Spec, od bool) bool {
 	for _, p := range s.Pkgs {
 		for _, t := range p.Targets {
-			if !engModelled(t) {
+			if !engModelled(t, od) {
 				return false
 			}
 		}
 	}
-	return true
+	return engClaimsOK(s)
 }
 
 // engEdit applies one random edit that stays inside the modelled fragment.
@@ -128,12 +227,19 @@ func engEdit(r *lib.Rng, s *Spec, order *[]string, o EngOpts, counter int) (*Spe
 			}
 		}
 		if o.DirHeavy && r.Chance(1, 2) {
-			if ed, ok := engDirEdit(r, c, counter); ok {
+			if ed, ok := engDirEdit(r, c, counter); ok && engClaimsOK(c) {
 				return c, ed
 			}
+			c = s.Clone()
+		}
+		if o.OutDirs && r.Chance(1, 3) {
+			if ed, ok := engOutDirEdit(r, c, counter); ok && engClaimsOK(c) {
+				return c, ed
+			}
+			c = s.Clone()
 		}
 		ed := ApplyRandomEdit(r, c, &ord, g, counter)
-		if ed.Kind == "none" || !engAllModelled(c) || len(c.Labels()) > o.MaxTargets+2 {
+		if ed.Kind == "none" || !engAllModelled(c, o.OutDirs) || len(c.Labels()) > o.MaxTargets+2 {
 			continue
 		}
 		*order = ord
@@ -189,6 +295,63 @@ func engDirEdit(r *lib.Rng, s *Spec, counter int) (Edit, bool) {
 				delete(p.Files, old)
 			}
 			return Edit{"rename-in-dir", fmt.Sprintf("//%s:%s src %s -> %s (same content)", pn, t.Name, old, nn)}, true
+		}
+	}
+	return Edit{}, false
+}
+
+// engOutDirEdit: edits aimed at the two-phase check of output_dirs targets: rename the declared out (the old one
+// stays in plz-out with its record), add / drop / rename a source (changes what is discovered), edit a source.
+func engOutDirEdit(r *lib.Rng, s *Spec, counter int) (Edit, bool) {
+	for _, pn := range lib.SortedKeys(s.Pkgs) {
+		p := s.Pkgs[pn]
+		for _, t := range shuffled(r, p.Targets) {
+			if t.Cmd.Op != "outdir" || len(t.Srcs) == 0 {
+				continue
+			}
+			l := "//" + pn + ":" + t.Name
+			switch r.Intn(5) {
+			case 0: // a new name, or one of two fixed names so that an earlier name comes back
+				nn := fmt.Sprintf("%s.m%d", t.Name, counter%2)
+				if nn == t.Outs[0] {
+					nn = t.Name + ".marker"
+				}
+				if nn == t.Outs[0] {
+					continue
+				}
+				t.Outs[0] = nn
+				return Edit{"outdir-rename-out", l + " out -> " + nn}, true
+			case 1:
+				for _, f := range localFiles(s, pn) {
+					if !contains(t.Srcs, f) {
+						t.Srcs = append(t.Srcs, f)
+						return Edit{"outdir-add-src", l + " += " + f}, true
+					}
+				}
+			case 2:
+				if len(t.Srcs) > 1 {
+					x := t.Srcs[len(t.Srcs)-1]
+					t.Srcs = t.Srcs[:len(t.Srcs)-1]
+					return Edit{"outdir-drop-src", l + " -= " + x}, true
+				}
+			case 3:
+				f := t.Srcs[r.Intn(len(t.Srcs))]
+				p.Files[f] = lib.Pick(r, contents) + fmt.Sprint(counter)
+				return Edit{"outdir-src-content", pn + "/" + f}, true
+			case 4: // both at once: another declared out and another set of sources
+				nn := fmt.Sprintf("%s.m%d", t.Name, counter%2)
+				if nn == t.Outs[0] {
+					continue
+				}
+				t.Outs[0] = nn
+				for _, f := range localFiles(s, pn) {
+					if !contains(t.Srcs, f) {
+						t.Srcs = append(t.Srcs, f)
+						break
+					}
+				}
+				return Edit{"outdir-rename-out+add-src", l + " out -> " + nn}, true
+			}
 		}
 	}
 	return Edit{}, false
@@ -298,13 +461,22 @@ func EngBuild(repo *Repo, base string, spec *Spec, order, req []string, index in
 	res := repo.Run(90*time.Second, append(args, req...)...)
 	st := EngStep{Index: index, Edit: ed, Wipe: wipe, Cache: o.Cache != "", Spec: spec.Clone(), Order: append([]string{}, order...),
 		Requested: append([]string{}, req...), Exit: res.Exit, Executed: res.Executed, LogPath: repo.LogPath, Stdout: res.Stdout}
+	st.TimedOut = res.TimedOut
 	st.Outputs = TargetOutputs(repo, spec, req)
 	st.OutStr = map[string]string{}
 	for l, m := range st.Outputs {
 		st.OutStr[l] = outStr(m)
 	}
+	st.Meta = readMetadata(repo, spec, req)
 	if res.Exit != 0 {
 		st.Stderr = tail(res.Stderr+res.Stdout, 1200)
+	}
+	if o.RuleHashes && res.Exit == 0 {
+		// a third invocation; the targets are up to date, so it builds nothing and prints the hashes
+		hres := repo.Run(90*time.Second, append([]string{"hash", "--detailed"}, req...)...)
+		if hres.Exit == 0 && len(hres.Executed) == 0 {
+			st.RuleHash = parseRuleHashes(hres.Stdout)
+		}
 	}
 	if o.CleanRef {
 		js, _ := json.Marshal(spec)
@@ -316,16 +488,72 @@ func EngBuild(repo *Repo, base string, spec *Spec, order, req []string, index in
 		clean := repo.CleanCopy(base, "clean", spec)
 		cres := clean.Run(90*time.Second, append(args, req...)...)
 		st.CleanExit, st.CleanExec = cres.Exit, cres.Executed
+		st.TimedOut = st.TimedOut || cres.TimedOut
 		st.Clean = TargetOutputs(clean, spec, req)
 		st.CleanStr = map[string]string{}
 		for l, m := range st.Clean {
 			st.CleanStr[l] = outStr(m)
 		}
-		if o.cleanMemo != nil {
+		if o.cleanMemo != nil && !cres.TimedOut {
 			o.cleanMemo[key] = st
 		}
 	}
 	return st
+}
+
+// readMetadata decodes OutputDirOuts from the gob-encoded core.BuildMetadata files of the requested rules.
+func readMetadata(repo *Repo, spec *Spec, req []string) map[string]*[]string {
+	out := map[string]*[]string{}
+	for _, l := range req {
+		t := spec.Target(l)
+		if t == nil || t.Kind == "filegroup" {
+			continue
+		}
+		pkg, name := SplitLabel(l)
+		dir := "gen"
+		if t.Binary {
+			dir = "bin"
+		}
+		data, err := os.ReadFile(filepath.Join(repo.Dir, "plz-out", dir, pkg, ".target_build_metadata_"+name))
+		if err != nil {
+			out[l] = nil
+			continue
+		}
+		var md struct{ OutputDirOuts []string }
+		if err := gob.NewDecoder(bytes.NewReader(data)).Decode(&md); err != nil {
+			x := []string{"<undecodable metadata: " + err.Error() + ">"}
+			out[l] = &x
+			continue
+		}
+		x := append([]string{}, md.OutputDirOuts...)
+		out[l] = &x
+	}
+	return out
+}
+
+var reHashLabel = regexp.MustCompile(`^(//[^ ]*:[^ ]*):$`)
+var reHashRule = regexp.MustCompile(`^\s+Rule: (\S+) \((pre|post)-build\)$`)
+
+// parseRuleHashes reads the "Rule:" lines of `plz hash --detailed`.
+func parseRuleHashes(stdout string) map[string][2]string {
+	out := map[string][2]string{}
+	cur := ""
+	for _, line := range strings.Split(stdout, "\n") {
+		if m := reHashLabel.FindStringSubmatch(line); m != nil {
+			cur = m[1]
+			continue
+		}
+		if m := reHashRule.FindStringSubmatch(line); m != nil && cur != "" {
+			v := out[cur]
+			if m[2] == "pre" {
+				v[0] = m[1]
+			} else {
+				v[1] = m[1]
+			}
+			out[cur] = v
+		}
+	}
+	return out
 }
 
 // EngRunHistories runs n histories, `workers` at a time; the result does not depend on scheduling.
@@ -379,6 +607,11 @@ func engKind(t *Target) string {
 		return lib.App("Genrule", lib.App("Const", lib.Str(t.Cmd.Arg)))
 	case "fail":
 		return "(Genrule Fail)"
+	case "outdir":
+		if !engModelled(t, true) {
+			panic("engine model covers output_dirs targets only with output_dirs = [_o] and file sources")
+		}
+		return "(Genrule OutDir)"
 	}
 	panic("engine model does not cover op " + t.Cmd.Op)
 }
@@ -457,14 +690,53 @@ func EngStepTerm(st *EngStep) string {
 		m := st.Outputs[l]
 		var os []string
 		for _, o := range lib.SortedKeys(m) {
-			os = append(os, lib.Pair(lib.Str(o), optNodeTerm(m[o])))
+			// TargetOutputs lists what an output_dirs target should discover under "_o/<source>": it lands
+			// in the package's gen directory under the base name
+			os = append(os, lib.Pair(lib.Str(strings.TrimPrefix(o, "_o/")), optNodeTerm(m[o])))
 		}
 		outs = append(outs, lib.Pair(lib.Str(l), lib.List(os)))
 	}
 	ex := append([]string{}, st.Executed...)
 	sort.Strings(ex)
+	var metas []string
+	for _, l := range lib.SortedKeys(st.Meta) {
+		if st.Meta[l] == nil {
+			metas = append(metas, lib.Pair(lib.Str(l), "None"))
+		} else {
+			metas = append(metas, lib.Pair(lib.Str(l), lib.Some(lib.StrList(*st.Meta[l]))))
+		}
+	}
 	return lib.App("mkStep", lib.Bool(st.Wipe), lib.Bool(st.Cache), EngRepoTerm(st.Spec, st.Order, st.LogPath), lib.StrList(st.Requested),
-		lib.Bool(st.Exit == 0), lib.StrList(ex), lib.List(outs))
+		lib.Bool(st.Exit == 0), lib.StrList(ex), lib.List(outs), lib.List(metas))
+}
+
+// EngRuleKeysTerm: for every target of the history whose rule hash was printed, the model's rule key (defKey) and
+// the real pre-build rule hash; the model checks that the two induce the same partition. Returns "" when
+// nothing was recorded. The second result lists the pairs for the oracle.
+func EngRuleKeysTerm(h []EngStep) (string, [][2]string) {
+	var pairs [][2]string
+	seen := map[[2]string]bool{}
+	for i := range h {
+		st := &h[i]
+		for _, l := range lib.SortedKeys(st.RuleHash) {
+			if st.Spec.Target(l) == nil || st.RuleHash[l][0] == "" {
+				continue
+			}
+			p := [2]string{defKey(st.Spec, l, st.LogPath), st.RuleHash[l][0]}
+			if !seen[p] {
+				seen[p] = true
+				pairs = append(pairs, p)
+			}
+		}
+	}
+	if len(pairs) == 0 {
+		return "", nil
+	}
+	var ts []string
+	for _, p := range pairs {
+		ts = append(ts, lib.Pair(lib.Str(p[0]), lib.Str(p[1])))
+	}
+	return lib.App("RuleKeys", lib.List(ts)), pairs
 }
 
 func EngCaseTerm(h []EngStep) string {
@@ -595,6 +867,52 @@ func EngWitnesses() []EngWitness {
 			witnessSpec(map[string]string{"a.txt": "x"}, []string{"a.txt"}, true),
 			witnessSpec(map[string]string{"b.txt": "x"}, []string{"b.txt"}, true)}, []string{"//p:d", "//p:l"}},
 	}
+}
+
+func odSpec(files map[string]string, srcs []string, out string) *Spec {
+	p := &Pkg{Files: map[string]string{}}
+	for k, v := range files {
+		p.Files[k] = v
+	}
+	p.Targets = append(p.Targets, &Target{Name: "t", Kind: "genrule", Srcs: srcs, Outs: []string{out}, OutDirs: []string{"_o"}, Cmd: Cmd{Op: "outdir"}})
+	return &Spec{Pkgs: map[string]*Pkg{"p": p}}
+}
+
+// EngOutDirWitnesses: fixed histories for the output_dirs finding: the declared out of such a target is renamed
+// (the old one stays in plz-out with its record), built, and renamed back; the third build fails, the fourth
+// succeeds. In the first history the middle tree also discovers one more file.
+func EngOutDirWitnesses() []EngWitness {
+	files := map[string]string{"a.txt": "A", "b.txt": "B"}
+	a := odSpec(files, []string{"a.txt"}, "m1")
+	return []EngWitness{
+		{"outdir-more-discovered", []*Spec{a, odSpec(files, []string{"a.txt", "b.txt"}, "m2"), a.Clone(), a.Clone()}, []string{"//p:t"}},
+		{"outdir-rename-out-back", []*Spec{a.Clone(), odSpec(files, []string{"a.txt"}, "m2"), a.Clone(), a.Clone()}, []string{"//p:t"}},
+	}
+}
+
+// EngSpecModelled: is every target of the tree inside the fragment of Model/Engine.v (output_dirs included)?
+func EngSpecModelled(s *Spec) bool { return engAllModelled(s, true) }
+
+var reFailedOutput = regexp.MustCompile(`rule (//[^ ]+) failed to create output`)
+
+// ExitClass: the narrow class of step k whose incremental build failed although the clean build of the same tree
+// succeeded. The known one: an output_dirs target whose declared outs were different earlier in the history
+// fails with "failed to create output" (it is rebuilt after the post-build check with the outputs of an old
+// metadata file still attached). Anything else is "exit-status-differs".
+func ExitClass(h []EngStep, k int) string {
+	st := &h[k]
+	if st.Exit != 0 && st.CleanExit == 0 {
+		if m := reFailedOutput.FindStringSubmatch(st.Stderr); m != nil {
+			if t := st.Spec.Target(m[1]); t != nil && len(t.OutDirs) > 0 {
+				for j := 0; j < k; j++ {
+					if u := h[j].Spec.Target(m[1]); u != nil && len(u.OutDirs) > 0 && strings.Join(u.Outs, " ") != strings.Join(t.Outs, " ") {
+						return "output-dirs-target-fails-to-rebuild-after-declared-out-renamed-back"
+					}
+				}
+			}
+		}
+	}
+	return "exit-status-differs"
 }
 
 // EngRunSpecs builds every tree of the sequence in turn (all targets requested); wipeAt lists step indices
